@@ -921,10 +921,10 @@ static ares_status_t ares_dns_write_rr_raw_rr(ares_buf_t          *buf,
     return status;
   }
 
-  /* Output raw data */
+  /* Output raw data, an RR may legitimately have none (RDLENGTH 0) */
   data = ares_dns_rr_get_bin(rr, ARES_RR_RAW_RR_DATA, &data_len);
-  if (data == NULL) {
-    return ARES_EFORMERR;
+  if (data == NULL && data_len != 0) {
+    return ARES_EFORMERR; /* LCOV_EXCL_LINE: DefensiveCoding */
   }
 
   if (data_len == 0) {
